@@ -15,7 +15,7 @@ def run(tier, seed):
     lay, tp, st = tables(tier, w)
     tb = f"{w}/view.ndjson"
     g = tlc_gen("CommonView.tla", "MC_CommonView.cfg", "VIEW", tb, name="c15_view")
-    r1 = vh(["common-view", "--layouts", lay, "--templates", tp, "--in", tb, "--reps", 150 if quick else 5000, "--seed", seed], name="c15")
+    r1 = vhr(["common-view", "--layouts", lay, "--templates", tp, "--in", tb], 150 if quick else 5000, seed, tier, name="c15")
     v.add_report(r1, "views")
     nviol, _ = v.finish()
     cov = std_cov(st + [g], [r1], {
